@@ -7,7 +7,7 @@ import itertools
 
 PROPERTY = "C02"
 LEVEL = "proof"
-LEAN_MODULES = ["Exetera.Props.C02"]
+LEAN_MODULES = ["Exetera.Props.C02", "Exetera.Props.C04"]
 EXHAUSTIVE = {"quick": False, "thorough": True}
 CASE_TIMEOUT = 30
 TECHNIQUE = "Lean 4 theorems (merge = relational join as a corollary of the streamed-join and column-mapping theorems + dispatch model) + API-level differential run of DataFrame.merge with injected chunk sizes"
@@ -19,7 +19,7 @@ LEVEL_NOTE = ("Trusted: Lean kernel; the hand-written merge model (validated aga
               "mode x truthful hints x injected chunk size, whole destination frame compared); pandas.merge, h5py.")
 RULE = ("frames: key column(s) over a 3-value alphabet (sorted when an ordered hint is given, duplicate-free when a unique hint is given), "
         "payload columns of every field type incl. a name clash; exhaustive over key columns of length <= 3 (quick: seeded sample of them) x "
-        "4 modes x truthful hint combinations x chunk sizes {1,2,3,1<<20}; plus seeded random frames up to 40 rows. Non-trivial = at least one "
+        "4 modes x truthful hint combinations x chunk sizes {1,2,3,1<<20} — every such case that takes the ordered path (thorough), a seeded sample of 5000 of those that take the pandas path; plus seeded random frames up to 40 rows; plus a malformed stream (every validation error). Non-trivial = at least one "
         "matched and one unmatched row or a duplicate key; distinct = distinct case dict.")
 ASSUMPTIONS = ["pandas.merge returns the relational join with NaN-marked misses (unordered path)", "h5py stores arrays faithfully"]
 TRUSTED = ["Lean 4.33 kernel", "axioms propext/Classical.choice/Quot.sound only", "checks/harness/c02.py"]
@@ -93,15 +93,17 @@ def gen_cases(tier, rng):
                         n += 1
                         allc.append(mk(lk, rk, how, hints, cs, n, compound=(n % 13 == 0), subset=(n % 7 == 0),
                                        kdtype="int32" if n % 3 else "S2"))
+    ordered = [c for c in allc if is_ordered_path(c)]
+    other = [c for c in allc if not is_ordered_path(c)]
     if tier == "quick":
-        ordered = [c for c in allc if c["hints"][0] and c["hints"][2]]
-        other = [c for c in allc if not (c["hints"][0] and c["hints"][2])]
-        cases.extend(rng.sample(ordered, min(len(ordered), 900)))
-        cases.extend(rng.sample(other, min(len(other), 300)))
+        cases.extend(rng.sample(ordered, min(len(ordered), 700)))
+        cases.extend(rng.sample(other, min(len(other), 250)))
     else:
-        cases.extend(allc)
+        # the ordered path (the streamed code the property is about) exhaustively; the pandas path by a seeded sample
+        cases.extend(ordered)
+        cases.extend(rng.sample(other, min(len(other), 5000)))
     # seeded random larger frames
-    for t in range(60 if tier == "quick" else 1500):
+    for t in range(50 if tier == "quick" else 1000):
         ordered = rng.random() < 0.7
         lu, ru = rng.random() < 0.3, rng.random() < 0.3
         lk = rand_keys(rng, rng.randrange(0, 40), ordered, lu)
@@ -176,21 +178,34 @@ def fields_of(case):
 _S = {}
 
 
+RECYCLE_EVERY = 16      # cases per in-memory HDF5 dataset (~7 MB of chunk storage per case is never returned by h5py)
+
+
 def _env():
     if not _S:
-        import io
         import functools
         import numpy as np
         from exetera.core import operations as ops, dataframe, fields
-        from exetera.core.session import Session
-        s = Session()
-        ds = s.open_dataset(io.BytesIO(), "w", "ds")
         orig = {}
         for name in dir(ops):
             if (name.startswith("generate_ordered_map_to_") and name.endswith("_streamed")) or \
                     name in ("ordered_map_valid_stream", "ordered_map_valid_indexed_stream"):
                 orig[name] = getattr(ops, name)
-        _S.update(np=np, ops=ops, dataframe=dataframe, fields=fields, s=s, ds=ds, k=0, orig=orig, functools=functools)
+        _S.update(np=np, ops=ops, dataframe=dataframe, fields=fields, s=None, ds=None, k=0, orig=orig, functools=functools)
+    if _S["s"] is None or _S["k"] % RECYCLE_EVERY == 0:
+        # a fresh Session + BytesIO dataset; the old one is closed and its buffer released (bounded worker memory)
+        import io
+        import gc
+        from exetera.core.session import Session
+        if _S["s"] is not None:
+            try:
+                _S["s"].close()
+            except Exception:
+                pass
+            _S["s"] = _S["ds"] = None
+            gc.collect()
+        s = Session()
+        _S["s"], _S["ds"] = s, s.open_dataset(io.BytesIO(), "w", "ds")
     return _S
 
 
@@ -541,4 +556,4 @@ def classify(case, mo):
 
 
 def select_for_mode(case, mode, tier):
-    return case.get("_n", 0) % 6 == 0 and len(case["lk"]) + len(case["rk"]) <= 10
+    return case.get("_n", 0) % 12 == 0 and len(case["lk"]) + len(case["rk"]) <= 10
